@@ -101,6 +101,19 @@ CHECKS = {
                       "impostor guesses of v= ; the client must never complete in the last two kinds"),
                 note="trusted base: vf/refmodels_direct.ScramServer built from hashlib/hmac; only the uuid4 nonce source is "
                      "rebound (seeded)"),
+    "C10": dict(ready=True, engine="refrecords", level="exploration", design_ref="DESIGN.md §6 C10",
+                technique="sanitizer + runtime monitoring: AddressSanitizer build of the Cython extension (system allocator, "
+                          "per-case report attribution, guard-page buffers) with an outcome classifier (ASan report / signal / "
+                          "confirmed hang / SystemError / MemoryError / ordinary exception) and a CRC-mismatch oracle; same inputs "
+                          "through the pure-Python decoder",
+                text=("valid v0/v1/v2 buffers (plain and every codec, with headers) x every truncation point, single-byte "
+                      "mutations at every position, every located length/count/varint field x boundary values (extremes and "
+                      "walk-stalling negatives), re-compressed inner message sets with mutated inner lengths, batches shorter than "
+                      "their header at the end of the allocation or in front of a PROT_NONE page, mixed-magic concatenations, "
+                      "random strings; with and without CRC checking; ~40k cases quick, ~900k thorough"),
+                note="trusted base: vf/refrecords.py field locator; ASan red zones (an over-read that stays inside the enclosing "
+                     "bytes object is invisible; direct-constructor cases therefore also run on guard-page buffers); UBSan is "
+                     "not part of the verdict (hton.pxd stores through unaligned pointers on purpose)"),
     "C11": dict(ready=True, engine="wire", level="exploration", design_ref="DESIGN.md §6 C11",
                 technique="runtime differential monitoring: library encode/decode vs. an independent table-driven Kafka codec; "
                           "postconditions on Request.prepare() and on the request builders",
